@@ -3,6 +3,7 @@ use super::*;
 use crate::codec::*;
 use crate::gen::*;
 use evalexpr::*;
+#[cfg(feature = "c15threads")]
 use std::sync::Arc;
 
 // ----------------------------------------------------------------------------- C01
@@ -55,17 +56,39 @@ pub fn deep_main() -> i32 {
             ctx.set_function("f".into(), Function::new(|v| Ok(v.clone()))).unwrap();
             for (name, src) in worst_cases() {
                 let r = std::panic::catch_unwind(std::panic::AssertUnwindSafe(|| {
+                    use std::io::Write;
+                    let at = |what: &str| {
+                        println!("at `{}` through {}", name, what);
+                        let _ = std::io::stdout().flush();
+                    };
+                    at("build_operator_tree");
                     let t = build_operator_tree::<DefaultNumericTypes>(&src);
                     if let Ok(t) = &t {
+                        at("iterators / Debug / Display / clone of the tree");
                         let _ = t.iter_identifiers().count();
                         let _ = format!("{:?}", t).len();
                         let _ = format!("{}", t).len();
                         let _ = t.clone();
+                        at("Node::eval_with_context (immutable)");
+                        let _ = t.eval_with_context(&ctx);
+                        at("Node::eval_boolean_with_context (immutable, typed)");
+                        let _ = t.eval_boolean_with_context(&ctx);
+                        at("Node::eval_with_context_mut");
+                        let _ = t.eval_with_context_mut(&mut ctx.clone());
+                        at("Node::eval");
+                        let _ = t.eval();
+                        at("Node::eval_with_context on EmptyContextWithBuiltinFunctions");
+                        let _ = t.eval_with_context(&EmptyContextWithBuiltinFunctions::<DefaultNumericTypes>::default());
                     }
                     let mut c = ctx.clone();
+                    at("eval_with_context_mut");
                     let v = eval_with_context_mut(&src, &mut c);
                     let _ = format!("{:?}", v).len();
+                    at("eval_with_context (immutable)");
                     let _ = eval_with_context(&src, &ctx);
+                    at("eval_int_with_context (immutable, typed)");
+                    let _ = eval_int_with_context(&src, &ctx);
+                    at("eval");
                     let _ = eval(&src);
                 }));
                 if r.is_err() {
@@ -97,8 +120,8 @@ impl Property for C01 {
     }
     fn rule(&self) -> String {
         "all token strings up to a length bound over a 22-token alphabet and random Unicode strings mixing token fragments, quotes, comment markers, multi-byte and whitespace characters (up to 4096 chars), each through tokenize, precompile, \
-         the iterators, Display/Debug, mutable / read-only / typed evaluation in HashMapContext (extreme integer bound), EmptyContext and EmptyContextWithBuiltinFunctions; every builtin on every pool value and pair plus its own edge family (every shift amount -70..70, every index pair over multi-byte strings, min / max over the edge pools, membership matrices); the maximal nestings of a 4096-char input in a subprocess with an 8 MiB stack; \
-         in the dev profile (overflow checks on; thorough: also release). A case passes if nothing panics or aborts. non-trivial = the input builds a tree; distinct = distinct input"
+         the iterators, Display/Debug, mutable / read-only / typed evaluation in HashMapContext (extreme integer bound), EmptyContext and EmptyContextWithBuiltinFunctions; every builtin on every pool value and pair plus its own edge family (every shift amount -70..70, every index pair over multi-byte strings, min / max over the edge pools, membership matrices); the maximal nestings of a 4096-char input through every kind of entry point in subprocesses with an 8 MiB stack (built with opt-level 1 and with the default dev profile, opt-level 0); \
+         in the dev profile (overflow checks on; thorough: also release). plus Display / Debug of every error the public constructors can build with edge payloads (empty / long lists, extreme counts, odd names). A case passes if nothing panics or aborts. non-trivial = the input builds a tree; distinct = distinct input"
             .into()
     }
     fn cases(&self, tier: Tier, rng: &mut Rng) -> (Vec<Case>, bool) {
@@ -199,19 +222,89 @@ impl Property for C01 {
         let mut viol = Vec::new();
         let mut notes = Vec::new();
         let exe = std::env::current_exe().unwrap();
-        // deep nestings in a subprocess: an abort (stack overflow) is an observation, not the death of the check
-        match std::process::Command::new(&exe).arg("deep").output() {
-            Ok(o) => {
-                let text = String::from_utf8_lossy(&o.stdout).to_string();
-                let done = text.lines().filter(|l| l.starts_with("ok ")).count();
-                if !o.status.success() {
-                    let next = worst_cases().get(done).map(|c| c.0.clone()).unwrap_or_default();
-                    viol.push((format!("worst-case nesting `{}` (4096 chars, 8 MiB stack)", next), format!("subprocess ended with {:?}: {}", o.status, text.lines().last().unwrap_or(""))));
-                } else {
-                    notes.push(format!("deep-nesting-cases-ok-{}", done));
+        // deep nestings in a subprocess: an abort (stack overflow) is an observation, not the death of the check.
+        // Twice: this binary (opt-level 1), and the binary built with the default dev profile (opt-level 0, the largest
+        // stack frames) that `check` passes in VERIF_DEEP_EXE
+        let mut exes = vec![("opt-level 1".to_string(), exe.clone())];
+        if let Ok(p) = std::env::var("VERIF_DEEP_EXE") {
+            exes.push(("default dev profile, opt-level 0".to_string(), std::path::PathBuf::from(p)));
+        }
+        for (label, e) in exes {
+            match std::process::Command::new(&e).arg("deep").output() {
+                Ok(o) => {
+                    let text = String::from_utf8_lossy(&o.stdout).to_string();
+                    let done = text.lines().filter(|l| l.starts_with("ok ")).count();
+                    if !o.status.success() {
+                        let next = text.lines().filter(|l| l.starts_with("at ")).last().unwrap_or("").to_string();
+                        viol.push((
+                            format!("worst-case nesting {} (4096 chars, 8 MiB stack, {})", next, label),
+                            format!("subprocess ended with {:?}: {}", o.status, text.lines().last().unwrap_or("")),
+                        ));
+                    } else {
+                        notes.push(format!("deep-nesting-cases-ok-{}-{}", done, label.replace(' ', "-").replace(',', "")));
+                    }
+                },
+                Err(err) => viol.push(("deep subprocess".into(), err.to_string())),
+            }
+        }
+        // every error a user function (or user code) can construct through the public API, with edge payloads, must format
+        // with Display and Debug without unwinding; the same for values of every shape
+        {
+            use evalexpr::{EvalexprError as E, ValueType};
+            type V = evalexpr::Value<DefaultNumericTypes>;
+            let vals: Vec<V> = vec![
+                V::Empty, V::Tuple(vec![]), V::Tuple(vec![V::Tuple(vec![])]), V::Tuple(vec![V::Int(1)]), V::String(String::new()), V::String("é".repeat(40)),
+                V::Float(f64::NAN), V::Float(-0.0), V::Float(f64::MIN_POSITIVE / 2.0), V::Float(f64::MAX), V::Int(i64::MIN), V::Boolean(true),
+                V::Tuple(vec![V::Int(1), V::Tuple(vec![V::String("a\"b".into()), V::Empty])]),
+            ];
+            let all_types = vec![ValueType::String, ValueType::Float, ValueType::Int, ValueType::Boolean, ValueType::Tuple, ValueType::Empty];
+            let mut zoo: Vec<(String, E)> = Vec::new();
+            for (i, v) in vals.iter().enumerate() {
+                for k in 0..=all_types.len() {
+                    zoo.push((format!("type_error(v{}, {} expected types)", i, k), E::type_error(v.clone(), all_types[..k].to_vec())));
                 }
-            },
-            Err(e) => viol.push(("deep subprocess".into(), e.to_string())),
+                zoo.push((format!("expected_string(v{})", i), E::expected_string(v.clone())));
+                zoo.push((format!("expected_int(v{})", i), E::expected_int(v.clone())));
+                zoo.push((format!("expected_float(v{})", i), E::expected_float(v.clone())));
+                zoo.push((format!("expected_number(v{})", i), E::expected_number(v.clone())));
+                zoo.push((format!("expected_number_or_string(v{})", i), E::expected_number_or_string(v.clone())));
+                zoo.push((format!("expected_boolean(v{})", i), E::expected_boolean(v.clone())));
+                zoo.push((format!("expected_tuple(v{})", i), E::expected_tuple(v.clone())));
+                zoo.push((format!("expected_empty(v{})", i), E::expected_empty(v.clone())));
+                for n in [0usize, 1, usize::MAX] {
+                    zoo.push((format!("expected_fixed_len_tuple({}, v{})", n, i), E::expected_fixed_len_tuple(n, v.clone())));
+                    zoo.push((format!("expected_ranged_len_tuple({}..=MAX, v{})", n, i), E::expected_ranged_len_tuple(n..=usize::MAX, v.clone())));
+                    zoo.push((format!("expected_ranged_len_tuple(reversed, v{})", i), E::expected_ranged_len_tuple(usize::MAX..=n, v.clone())));
+                }
+                for w in &vals {
+                    zoo.push((format!("wrong_type_combination(v{}, ..)", i), E::wrong_type_combination(evalexpr::Operator::Add, vec![ValueType::from(v), ValueType::from(w)])));
+                }
+                zoo.push((format!("value v{}", i), E::CustomMessage(format!("{} {:?}", v, v))));
+            }
+            zoo.push(("wrong_type_combination(no types)".into(), E::wrong_type_combination(evalexpr::Operator::Neg, vec![])));
+            for (a, b) in [(0usize, 0usize), (usize::MAX, 0), (0, usize::MAX), (3, 3)] {
+                zoo.push((format!("wrong_operator_argument_amount({}, {})", a, b), E::wrong_operator_argument_amount(a, b)));
+                zoo.push((format!("wrong_function_argument_amount({}, {})", a, b), E::wrong_function_argument_amount(a, b)));
+                zoo.push((format!("wrong_function_argument_amount_range({}, {}..={})", a, b, a), E::wrong_function_argument_amount_range(a, b..=a)));
+            }
+            for name in ["", "é", &"é".repeat(40), &format!("{}é", "a".repeat(31)), "a\"b\\c\n", "\u{202e}x", "\u{0}"] {
+                zoo.push((format!("VariableIdentifierNotFound({:?})", name), E::VariableIdentifierNotFound(name.to_string())));
+                zoo.push((format!("FunctionIdentifierNotFound({:?})", name), E::FunctionIdentifierNotFound(name.to_string())));
+                zoo.push((format!("IllegalEscapeSequence({:?})", name), E::IllegalEscapeSequence(name.to_string())));
+                zoo.push((format!("CustomMessage({:?})", name), E::CustomMessage(name.to_string())));
+                zoo.push((format!("invalid_regex({:?})", name), E::invalid_regex(name.to_string(), name.to_string())));
+            }
+            for e in [E::AppendedToLeafNode, E::PrecedenceViolation, E::UnmatchedLBrace, E::UnmatchedRBrace, E::UnmatchedDoubleQuote, E::MissingOperatorOutsideOfBrace, E::ContextNotMutable, E::BuiltinFunctionsCannotBeEnabled, E::BuiltinFunctionsCannotBeDisabled, E::OutOfBoundsAccess, E::RandNotEnabled] {
+                zoo.push((format!("{:?}", e), e));
+            }
+            let n_zoo = zoo.len();
+            for (what, e) in zoo {
+                let r = std::panic::catch_unwind(std::panic::AssertUnwindSafe(|| format!("{} {:?}", e, e).len()));
+                if r.is_err() {
+                    viol.push((format!("Display / Debug of the error built by {}", what), "formatting panics".to_string()));
+                }
+            }
+            notes.push(format!("error-zoo-{}", n_zoo));
         }
         // known finding K1: memory exhaustion by doubling, under a 2 GiB address-space limit
         let k1 = std::process::Command::new("sh")
@@ -245,6 +338,7 @@ fn describe_line(line: &str) -> String {
 pub struct C15;
 
 /// compile-time: the public data types are Send + Sync (a compile error here is the violation)
+#[cfg(feature = "c15threads")]
 #[allow(dead_code)]
 fn assert_send_sync() {
     fn check<T: Send + Sync>() {}
@@ -278,7 +372,7 @@ impl Property for C15 {
     }
     fn rule(&self) -> String {
         "compile-time Send + Sync assertions for the 8 public types; 2..16 threads share one Arc<Node> per program and one Arc<context> of each kind (HashMapContext with variables and user functions, EmptyContext, EmptyContextWithBuiltinFunctions) \
-         and evaluate every program of a batch (incl. 80 programs over the optional regex builtins with several patterns in flight) concurrently: each result must equal the sequential result; 48 threads parked inside one user function at the same instant each still get the sequential result; the sequential read-only results also go through the model correspondence. non-trivial = evaluation succeeds; distinct = distinct program"
+         and evaluate every program of a batch (incl. 80 programs over the optional regex builtins with several patterns in flight) concurrently: each result must equal the sequential result; 96 threads, each 1000 operator levels deep and parked inside one user function at the same instant, each still get the sequential result; the sequential read-only results also go through the model correspondence. non-trivial = evaluation succeeds; distinct = distinct program"
             .into()
     }
     fn cases(&self, tier: Tier, rng: &mut Rng) -> (Vec<Case>, bool) {
@@ -314,6 +408,11 @@ impl Property for C15 {
         let r = eval_result(&out.impl_resp[4]);
         Verdict::Pass { nontrivial: if r.starts_with("ok") { Some(case.human.clone()) } else { None }, class: class_of(r) }
     }
+    #[cfg(not(feature = "c15threads"))]
+    fn extra(&self, _tier: Tier, _rng: &mut Rng) -> (usize, Vec<(String, String)>, Vec<String>) {
+        (0, vec![("harness build".into(), "this harness binary was built without the `c15threads` feature: the Send/Sync assertions and the thread checks did not run".into())], vec![])
+    }
+    #[cfg(feature = "c15threads")]
     fn extra(&self, tier: Tier, rng: &mut Rng) -> (usize, Vec<(String, String)>, Vec<String>) {
         let mut progs = shared_programs(rng, if tier == Tier::Quick { 400 } else { 4000 });
         // the optional `regex` builtins (feature enabled in the harness build; not part of the Lean model): several
@@ -386,7 +485,7 @@ impl Property for C15 {
         // 3 s have passed): each evaluation must still give its sequential result — nothing may count or limit callers globally
         {
             use std::sync::atomic::{AtomicUsize, Ordering};
-            let n_threads = 48usize;
+            let n_threads = 96usize;
             let arrived = Arc::new(AtomicUsize::new(0));
             let mut ctx = HashMapContext::<DefaultNumericTypes>::new();
             ctx.set_value("x".into(), Value::Int(35)).unwrap();
@@ -405,24 +504,26 @@ impl Property for C15 {
             .unwrap();
             ctx.set_function("id".into(), Function::new(|v| Ok(v.clone()))).unwrap();
             let ctx = Arc::new(ctx);
-            let tree = Arc::new(build_operator_tree::<DefaultNumericTypes>("hold(7) + id(x) + math::sqrt(16) + len(\"abc\")").unwrap());
+            // … and each of them 1000 operator levels deep (an even number of negations): no budget may be shared between threads
+            let src = format!("{}(hold(7) + id(x) + math::sqrt(16) + len(\"abc\"))", "-".repeat(1000));
+            let tree = Arc::new(build_operator_tree::<DefaultNumericTypes>(&src).unwrap());
             let want = "ok F4048800000000000".to_string(); // 7 + 35 + 4.0 + 3 = 49.0
             let hs: Vec<_> = (0..n_threads)
                 .map(|_| {
                     let (tree, ctx) = (tree.clone(), ctx.clone());
-                    std::thread::spawn(move || enc_res(&tree.eval_with_context(&*ctx), enc_value))
+                    std::thread::Builder::new().stack_size(8 << 20).spawn(move || enc_res(&tree.eval_with_context(&*ctx), enc_value)).unwrap()
                 })
                 .collect();
             for (i, h) in hs.into_iter().enumerate() {
                 evals += 1;
                 match h.join() {
                     Ok(got) if got == want => {},
-                    Ok(got) => viol.push((format!("\"hold(7) + id(x) + math::sqrt(16) + len(\\\"abc\\\")\" with {} threads inside `hold` at once (thread {})", n_threads, i), format!("concurrent result `{}`, sequential `{}`", got, want))),
+                    Ok(got) => viol.push((format!("1000 x `-` then `(hold(7) + id(x) + math::sqrt(16) + len(\\\"abc\\\"))` with {} threads inside `hold` at once (thread {})", n_threads, i), format!("concurrent result `{}`, sequential `{}`", got, want))),
                     Err(_) => viol.push(("thread".into(), "an evaluating thread panicked".into())),
                 }
             }
         }
-        (evals, viol, vec![format!("threads-2-4-8-16-rounds-{}", rounds), "48-threads-parked-inside-a-function".into()])
+        (evals, viol, vec![format!("threads-2-4-8-16-rounds-{}", rounds), "96-threads-parked-inside-a-function-1000-levels-deep".into()])
     }
 }
 
